@@ -143,7 +143,7 @@ def step_contract(cfg: ivp.Cfg):
             eq("posterior_cov", cov(L, res.u), sp["P_post"]),
         ]
         Hc, bc, Rc = law(L, res.fun_evals)
-        cl += [eq("cached_linearisation_H", Hc, sp["H"]), eq("cached_linearisation_b", bc, sp["b"])]
+        cl += [eq("cached_linearisation_H", Hc, sp["H"]), eq("cached_linearisation_b", bc, sp["b"]), eq("cached_linearisation_noise_is_damping", Rc, ivp.damp_cov(cfg, sp["H"], damp))]
         if cfg.strategy != "filter":
             cl += smoother_clauses(cfg, res, state, sp)
             back_leaves = jax.tree_util.tree_leaves(state.solution_full.conditional)
